@@ -12,7 +12,37 @@ THEOREMS = ["C17_int_exact", "C17_int_no_wrap", "C17_uint_exact", "C17_bigint_ex
             "C17_float32_exact", "C17_float64_exact", "C17_string_exact", "C17_bytes_exact",
             "C17_bool_exact", "C17_scalar_mismatch_is_error", "C17_scalar_null_zero", "C17_scalar_faithful",
             "C17_symbol_without_text_is_error", "C17_symtok_target", "C17_doc_annotations", "C17_plain_safe",
-            "C17_plain_unmarshal_safe", "C17_decode_image_faithful", "C17_decode_any_total", "C17_decoder_stream_order"]
+            "C17_plain_unmarshal_safe", "C17_decode_image_faithful", "C17_decode_any_total", "C17_decoder_stream_order",
+            "C17_unmarshal_safe_all_types", "C17_unmarshal_never_panics", "C17_decodeTo_safe_all_types",
+            "C17_decodeTo_result_invariant", "C17_unmarshal_into_safe_all_types", "C17_decodeTo_safe_any_content",
+            "C17_decodeTo_never_panics_any_content", "C17_fields_paths_valid", "C17_read_only_non_struct_is_error",
+            "C17_decode_any_well_typed", "C17c_decode_represents", "C17c_decode_to_represents",
+            "C17c_no_representative_not_ok", "C17c_norep_int_range", "C17c_norep_f32_overflow",
+            "C17c_norep_symbol_no_text", "C17c_norep_class", "C17c_norep_unstorable", "C17c_norep_slice_elem",
+            "C17c_norep_array_elem", "C17c_norep_map_value", "C17c_norep_ptr", "C17c_norep_struct_field",
+            "C17c_decode_unstorable", "C17c_decode_class_mismatch", "C17c_decode_slice_int_range",
+            "C17c_decode_slice_elem_unstorable", "C17c_decode_array_elem_unstorable",
+            "C17c_decode_map_value_unstorable", "C17c_decode_ptr_target_unstorable",
+            "C17c_decode_struct_field_unstorable", "C17c_faithful_or_error", "C17c_represents_functional_partial",
+            "C17c_decode_to_unique_partial", "C17c_represents_has_type_partial", "C17d_bad_never_ok",
+            "C17d_bad_never_ok_shaped", "C17d_bad_arr_mono", "C17d_bad_unmarshal_not_ok",
+            "C17d_not_ok_not_panic_is_err", "C17d_bad_unmarshal_is_err", "C17d_bad_plain_is_err",
+            "C17d_int_out_of_range_anywhere", "C17d_f32_overflow_anywhere", "C17d_symbol_without_text_anywhere",
+            "C17d_mismatch_anywhere", "C17d_bad_in_slice", "C17d_bad_in_array", "C17d_bad_in_map",
+            "C17d_bad_under_ptr", "C17d_bad_annotated", "C17d_bad_in_struct_field", "C17d_bad_in_struct_field2",
+            "C17d_shaped_zero", "C17d_has_type_shaped", "C17d_decto_shaped", "C17d_bad_never_ok_typed",
+            "C17d_int_out_of_range_in_slice", "C17d_int_out_of_range_in_slice_unmarshal",
+            "C17d_int_out_of_range_in_array", "C17d_int_out_of_range_in_array_unmarshal",
+            "C17d_int_out_of_range_in_map", "C17d_int_out_of_range_in_map_unmarshal",
+            "C17d_int_out_of_range_under_ptr", "C17d_int_out_of_range_under_ptr_unmarshal",
+            "C17d_int_out_of_range_in_struct_field", "C17d_int_out_of_range_in_struct_field_unmarshal",
+            "C17_decoder_stream_then_no_input", "C17_decoder_calls_length", "C17_faithful_or_error_rty2",
+            "C17_no_representative_is_error", "C17_not_ok_is_error", "C17_bad_is_error", "C17_int_no_wrap_in_slice",
+            "C17_int_no_wrap_in_array", "C17_int_no_wrap_in_map", "C17_int_no_wrap_under_ptr",
+            "C17_int_no_wrap_in_struct_field", "C17_unstorable_is_error", "C17_slice_elem_unstorable_is_error",
+            "C17_array_elem_unstorable_is_error", "C17_map_value_unstorable_is_error",
+            "C17_ptr_target_unstorable_is_error", "C17_struct_field_unstorable_is_error"]
+EXTRA_MODULES = ["C17b", "C17c", "C17d", "C17e"]
 
 LEVEL = "proof"
 EXPLANATION = ("Gallina model of unmarshal.go/fields.go over the Ion value tree (Go/Decode.v, Go/Fields.v); theorems: "
@@ -512,3 +542,48 @@ def run(ctx):
     lines = gen_lines(ctx)
     ctx.correspond("K11-unmarshal", lines, oracle=oracle, classify=classify_case,
                    nontrivial=lambda ln, m: m not in ("badinput", "illtyped"))
+    named_types(ctx)
+
+
+def named_types(ctx):
+    """Unmarshal into DEFINED (named) non-struct types — type K string, type B byte, ... — which the reflect-built universe
+    of the model cannot express: Go-only stage with an independent expectation per case.  Found by the C17 proof work
+    (two panics, repaired); every answer must be the expected value or an error, never a panic."""
+    cases = [
+        ("mapkey", "{a:1,b:2}", "ok map[a:1_b:2]"), ("mapkey", "{}", "ok map[]"), ("mapkey", "{'':1}", "ok map[:1]"),
+        ("mapkey", "null.struct", "ok map[]"), ("mapkey", "[1]", "err"), ("mapkey", "{a:x}", "err"),
+        ("mapnamed", "{a:1,b:-2}", "ok map[a:1_b:-2]"), ("mapnamed", "{a:1,b:40000}", "err"), ("mapnamed", "{a:\"s\"}", "err"),
+        ("bytearr", "{{aGk=}}", "ok [104_105_0]"), ("bytearr", "{{}}", "ok [0_0_0]"), ("bytearr", "{{\"abc\"}}", "ok [97_98_99]"),
+        ("bytearr", "{{AQIDBA==}}", None), ("bytearr", "\"abc\"", "err"), ("bytearr", "[1,2,3]", "ok [1_2_3]"), ("bytearr", "[1,2,300]", "err"),
+        ("bytes", "{{aGk=}}", "ok [104_105]"), ("bytes", "{{\"hi\"}}", "ok [104_105]"), ("bytes", "5", "err"),
+        ("byteslice", "{{aGk=}}", "ok [104_105]"), ("byteslice", "[1,255]", "ok [1_255]"), ("byteslice", "[256]", "err"), ("byteslice", "[-1]", "err"),
+        ("int", "32767", "ok 32767"), ("int", "32768", "err"), ("int", "-32768", "ok -32768"), ("int", "-32769", "err"), ("int", "1.5e0", "err"),
+        ("int", "null.int", "ok 0"), ("int", "\"1\"", "err"),
+        ("list", "[1,2,3]", "ok [1_2_3]"), ("list", "[1,40000]", "err"), ("list", "(1 2)", "ok [1_2]"), ("list", "[]", "ok []"), ("list", "{a:1}", "err"),
+        ("str", "\"x y\"", "ok \"x_y\""), ("str", "abc", "ok \"abc\""), ("str", "$0", "err"), ("str", "5", "err"),
+        ("float", "1.5e0", "ok 1.5"), ("float", "1e300", "err"), ("float", "-1e39", "err"), ("float", "3", "err"),
+        ("bool", "true", "ok true"), ("bool", "1", "err"),
+        ("struct", "{k:\"q\",m:{a:\"b\"},a:{{AQID}},l:[1,-2],b:{{aGk=}},f:1.5e0,o:true,p:7,x:{z:{{AQ==}}}}",
+         "ok \"q\"|map[a:b]|[1_2_3]|[1_-2]|[104_105]|1.5|true|7|map[z:[1]]"),
+        ("struct", "{k:q,m:{},a:{{}},l:[],f:0e0,o:false,p:null,x:{}}", "ok \"q\"|map[]|[0_0_0]|[]|[]|0|false|nil|map[]"),
+        ("struct", "{p:40000}", "err"), ("struct", "{m:{a:5}}", "err"), ("struct", "{x:{z:7}}", "err"), ("struct", "{l:[1,[2]]}", "err"),
+    ]
+    lines = ["unmnamed %s x%s" % (c, t.encode().hex()) for c, t, _ in cases]
+    # the same documents in binary (through the text->binary transcoder of the harness is not available here: the real
+    # binary writer is exercised by K11; named types only differ in the reflect layer, which both formats share)
+    go = run_go(lines)
+    bad = 0
+    for (c, t, want), ln, g in zip(cases, lines, go):
+        why = None
+        if g.startswith(("panic", "fatal", "timeout")):
+            why = "Unmarshal of %s into the named type case '%s': %s" % (t, c, g[:60])
+        elif want is not None and g != want:
+            why = "Unmarshal of %s into the named type case '%s' gives %s, expected %s" % (t, c, g[:80], want)
+        elif want is None and not (g == "err" or g.startswith("ok ")):
+            why = "unexpected answer " + g[:60]
+        if why:
+            bad += 1
+            ctx.fail("property", "C17-named-types", ln, why)
+    ctx.count("C17-named-types", len(lines), lines, failures=bad, sample=lines[0] + " => " + go[0])
+
+
